@@ -27,6 +27,8 @@ pub enum Ending {
     FinDrop,
     /// writer.write_shapes(&[shapes[i]...]) (consumes the writer)
     WriteShapes(Vec<usize>),
+    /// the caller panics while it holds the writer: the writer is dropped by the unwinding
+    PanicUnwind,
 }
 
 #[derive(Clone, Debug, Serialize, Deserialize)]
@@ -224,7 +226,7 @@ pub fn run_writer(world: &WorldRef, prog: &WProg) -> WRun {
     // the ending
     if !poisoned {
         match &prog.ending {
-            Ending::Drop => {}
+            Ending::Drop | Ending::PanicUnwind => {}
             Ending::FinDrop => {
                 let first = evs(world);
                 let r = guarded(|| writer.finalize());
@@ -273,7 +275,20 @@ pub fn run_writer(world: &WorldRef, prog: &WProg) -> WRun {
         }
     }
     let first = evs(world);
-    let r = guarded(move || drop(writer));
+    let unwinding = !poisoned && prog.ending == Ending::PanicUnwind;
+    let r = if unwinding {
+        // the writer is moved into a frame that panics: Drop runs while the thread is panicking
+        match guarded(move || {
+            let _held = writer;
+            panic!("shpsim: the caller panics while holding the writer");
+        }) {
+            Err(p) if p.msg.starts_with("shpsim: the caller panics") => Ok(()),
+            Err(p) => Err(p),
+            Ok(()) => Ok(()),
+        }
+    } else {
+        guarded(move || drop(writer))
+    };
     run.marks.push(Mark {
         call: "drop".into(),
         call_no: usize::MAX,
@@ -305,6 +320,7 @@ pub fn pattern(prog: &WProg) -> String {
         .collect();
     s.push(match &prog.ending {
         Ending::Drop => "drop".into(),
+        Ending::PanicUnwind => "unwind".into(),
         Ending::FinDrop => "f;drop".into(),
         Ending::WriteShapes(l) => format!("ws{}", l.len()),
     });
